@@ -13,6 +13,7 @@ trusted stubs) interleaved with directive blocks
     //@beforetail                  ... before the tail expression of the fn body
     //@atend                       ... before the closing brace of the fn body (unit-returning fns)
     //@replace[*] <old> => <new>   exact-text rewrite (rule must be named: `R3: reason` after ` ## `)
+    //@dropnested fn NAME          remove a nested helper fn (its calls must be replaced by a stub, R3)
     //@letchain if A && let P = E  desugar a let-chain without else into nested ifs (R5)
     //@fields a, b, c              struct field projection (R6)
     //@attr <text>                 attribute line placed above the item
@@ -305,6 +306,16 @@ def extract_item(repo, relfile, path, subs, rules_used):
         rules_used.add('R9')
       edits.append(Edit(toks[lb][2], 0, '\n' + btxt, 'R8 loop %d' % kth))
       rules_used.add('R8')
+    elif name == 'dropnested':
+      # R3: a nested helper fn is removed from the body; its call sites must be @replace'd by a stub
+      nm = arg.strip().split()[-1]
+      hit = [m for m in range(body_open + 1, e) if toks[m][0] == 'id' and toks[m][1] == 'fn' and toks[m + 1][1] == nm]
+      if len(hit) != 1:
+        raise ExtractError('anchor lost: nested fn %s in %s' % (nm, path))
+      nb = first_brace_at_depth0(toks, hit[0] + 2)
+      nc = match_close(toks, nb)
+      edits.append(Edit(toks[hit[0]][2], toks[nc][3] - toks[hit[0]][2], '', 'R3 drop nested fn %s' % nm))
+      rules_used.add('R3')
     elif name == 'letchain':
       # R5: `if A && let P = E { B }`  ==>  `if A { if let P = E { B } }`   (refused when an else follows)
       (a0, b0), = _find_exact(src[start:end], arg.strip(), start, None, path)
